@@ -133,6 +133,9 @@ pub fn assignment_to_string(a: &Assignment) -> String {
     s
 }
 
+/// Upper limit on the SAT calls of one case (the largest legitimate count seen is a few hundred).
+pub const SAT_CALL_CAP: usize = 3000;
+
 /// Event log shared by all sessions created by one recording factory.
 pub type Log = Rc<RefCell<Vec<String>>>;
 
@@ -179,6 +182,10 @@ impl SatSolver for Recording {
             *n += 1;
             *n - 1
         };
+        // watchdog: a query that keeps calling the oracle is cut (reported as a panic of the query)
+        if k >= SAT_CALL_CAP {
+            panic!("sat-call-cap-exceeded: more than {} SAT calls in one case", SAT_CALL_CAP);
+        }
         let r = if let Fault::UnknownAt(f) = self.sh.fault {
             if f == k {
                 SolvingResult::Unknown
